@@ -50,7 +50,11 @@ fn repeat_of(kind: usize, rng: &mut Rng) -> Repeat {
     1 => Repeat::Disabled,
     _ => {
       let keys: Vec<u16> = match rng.below(4) { 0 => vec![], 1 => vec![F20], 2 => vec![LEFTCTRL, F20], _ => vec![F21] };
-      Repeat::Special { keys: keys.iter().map(|c| key(*c)).collect(), delay_ms: 200 + 10 * (rng.below(5) as i32), interval_ms: 30 + (rng.below(4) as i32) }
+      // mostly ordinary timings; one in four from the edges the parser also accepts (zero, negative, extreme)
+      let (d, i): (i32, i32) = if rng.chance(1, 4) {
+        *rng.pick(&[(0, 0), (0, 30), (130, 0), (-1, 30), (130, -7), (i32::MAX, 1), (1, i32::MIN), (-2147483647, 2147483647)])
+      } else { (200 + 10 * (rng.below(5) as i32), 30 + (rng.below(4) as i32)) };
+      Repeat::Special { keys: keys.iter().map(|c| key(*c)).collect(), delay_ms: d, interval_ms: i }
     }
   }
 }
@@ -167,6 +171,9 @@ fn rep_str(r: &ResultingRepeat) -> String {
   }
 }
 
+// the eight standard modifiers (what the PROPERTIES mean by "modifier"; not read from the code)
+pub const STANDARD_MODS: [u16; 8] = [42, 54, 29, 97, 56, 100, 125, 126];
+
 pub fn alphabet_of(ms: &[Mapping]) -> Vec<u16> {
   let mut alpha: Vec<u16> = vec![];
   for m in ms {
@@ -176,8 +183,30 @@ pub fn alphabet_of(ms: &[Mapping]) -> Vec<u16> {
     }
   }
   alpha.sort();
-  for f in [FOREIGN_KEY, FOREIGN_MOD] { if !alpha.contains(&f) { alpha.push(f); } }
+  if !alpha.contains(&FOREIGN_KEY) { alpha.push(FOREIGN_KEY); }
+  // one foreign modifier, rotating over the standard modifiers from layout to layout (so that every one of
+  // them is exercised as an uninvolved key somewhere in the family)
+  let start = alpha.iter().map(|c| *c as usize).sum::<usize>() + ms.len();
+  for i in 0..8 {
+    let f = STANDARD_MODS[(start + i) % 8];
+    if !alpha.contains(&f) { alpha.push(f); break; }
+  }
   alpha
+}
+
+// Family M: for every standard modifier M, a key-producing mapping with M in its output, a plain mapping and
+// a no-repeat mapping (stale modifiers, no-repeat release) and M as a trigger modifier
+pub fn family_modifiers() -> Vec<NamedLayout> {
+  let mut res = vec![];
+  for m in STANDARD_MODS {
+    res.push(NamedLayout { tag: format!("modifier/{}", m), mappings: vec![
+      mk(&[A], &[m, 45], Repeat::Normal, &[]),
+      mk(&[B], &[21], Repeat::Normal, &[]),
+      mk(&[46], &[46], Repeat::Disabled, &[]),
+      mk(&[m, 47], &[33], Repeat::Normal, &[]),
+    ] });
+  }
+  res
 }
 
 struct Node {
@@ -387,6 +416,7 @@ pub fn main(args: &[String]) -> i32 {
   if singles.len() > n_single { rng.shuffle(&mut singles); singles.truncate(n_single); }
   for l in singles { layouts.push((l, false)); }
   for l in family_multi(&mut rng, n_multi) { layouts.push((l, false)); }
+  for l in family_modifiers() { layouts.push((l, false)); }
   for l in builtin_layouts() { layouts.push((l, true)); }
 
   let total = layouts.len();
